@@ -482,9 +482,9 @@ Theorem op_correct_lit_uint : forall v,
 Proof. exact FrontendOpsMisc.lit_uint_spec. Qed.
 Print Assumptions op_correct_lit_uint.
 
-(* SInt(z): two's complement value z *)
+(* SInt(z): two's complement value z, the whole int64 range (INT64_MIN and INT64_MAX included: 64 bit) *)
 Theorem op_correct_lit_sint : forall z,
-  (- 2 ^ 63 < z < 2 ^ 63)%Z -> bv_sval (lit_sint z) = Some z /\ length (lit_sint z) = lit_sint_width z /\ lit_sint_width z <= 64.
+  (- 2 ^ 63 <= z < 2 ^ 63)%Z -> bv_sval (lit_sint z) = Some z /\ length (lit_sint z) = lit_sint_width z /\ lit_sint_width z <= 64.
 Proof. exact FrontendOpsMisc.lit_sint_spec. Qed.
 Print Assumptions op_correct_lit_sint.
 
@@ -514,6 +514,7 @@ Example op_correct_lit_ex :
   /\ lit_str 0 LB_HEX [Some 15%N; None] = Some [BX; BX; BX; BX; B1; B1; B1; B1]               (* "xFx" *)
   /\ lit_str 4 LB_BIN [Some 1%N; Some 0%N; Some 1%N; Some 0%N] = Some (bv_of_N 4 10)          (* "4b1010" *)
   /\ lit_str 3 LB_BIN [Some 1%N; Some 0%N; Some 1%N; Some 0%N] = None
+  /\ lit_sint (- 2 ^ 63) = bv_of_N 64 (2 ^ 63) /\ lit_sint (2 ^ 63 - 1) = bv_of_N 64 (2 ^ 63 - 1) /\ lit_uint (2 ^ 64 - 1) = bv_of_N 64 (2 ^ 64 - 1)
   /\ fe_apply (F_lit_int TS (-1)%Z) [] = Some (mk_sval TS PSign [B1])
   /\ fe_apply (F_lit_int TU (-1)%Z) [] = None.
 Proof. repeat split; vm_compute; reflexivity. Qed.
